@@ -191,6 +191,37 @@ func exprOriginCases(run *Run, r *rand.Rand, n int) {
 			}
 		}
 	}
+	// tuples whose positions admit references only in part (a literal, keyword or type name in front of,
+	// between and behind positions holding references)
+	refV := schema.Reference{OfScopeId: "variable"}
+	for _, tc := range []struct {
+		cons schema.Constraint
+		text string
+	}{
+		{schema.Tuple{Elems: []schema.Constraint{schema.LiteralType{Type: cty.String}, refV}}, `["lit", var.second]`},
+		{schema.Tuple{Elems: []schema.Constraint{refV, schema.LiteralType{Type: cty.String}}}, `[var.first, "lit"]`},
+		{schema.Tuple{Elems: []schema.Constraint{schema.Keyword{Keyword: "inherit"}, schema.AnyExpression{OfType: cty.String}}}, `[inherit, "${var.a}-x"]`},
+		{schema.Tuple{Elems: []schema.Constraint{refV, schema.TypeDeclaration{}, schema.OneOf{refV, schema.LiteralType{Type: cty.Number}}}}, `[var.a, string, var.b]`},
+		{schema.Tuple{Elems: []schema.Constraint{schema.LiteralValue{Value: cty.StringVal("x")}, refV, schema.LiteralType{Type: cty.Bool}, refV}}, `["x", var.a, true, var.b]`},
+		{schema.Map{Elem: schema.Tuple{Elems: []schema.Constraint{schema.LiteralType{Type: cty.Number}, refV}}}, `{ k = [1, var.a], l = [2, var.b] }`},
+		{schema.List{Elem: schema.Tuple{Elems: []schema.Constraint{schema.Keyword{Keyword: "inherit"}, refV}}}, `[[inherit, var.a], [inherit, var.b]]`},
+	} {
+		expr, diags := hclsyntax.ParseExpression([]byte(tc.text), "main.tf", hcl.InitialPos)
+		if expr == nil || diags.HasErrors() {
+			continue
+		}
+		for _, self := range []bool{false, true} {
+			res := safeCall("ExprReferenceOrigins", func() (interface{}, error) {
+				return decoder.VerifExprReferenceOrigins(pc, expr, tc.cons, self), nil
+			})
+			if res.Panic != "" {
+				continue
+			}
+			obs, _ := res.Val.(reference.Origins)
+			run.Case("exprorigins", []S{Bool(self), fS, consS(tc.cons), oexprS(expr)}, originsS(obs))
+			run.Count("exprorigins_mixed_tuples")
+		}
+	}
 	for i := 0; i < n; i++ {
 		var cons schema.Constraint
 		switch r.Intn(3) {
